@@ -660,6 +660,9 @@ def _ht(j, state):
         return typing.Optional[_ht(j["opt"], state)]
     if "schema" in j:
         return _hschema(j["schema"], state)
+    if "literal" in j:
+        import typing
+        return typing.Literal[tuple(j["literal"])]
     if "self" in j:
         return j["self"]            # forward reference by name
     raise ValueError(j)
@@ -1264,6 +1267,11 @@ H_TYPES = {
     "List[int]x": _r("list", args=[P("int")], options={"invalid_items": "exclude"}),
     "Set[int]p": _r("set", args=[P("int")], options={"invalid_items": "preserve", "collect_errors": True}),
     "Dict[int,int]x": _r("dict", args=[P("int"), P("int")], options={"invalid_keys": "exclude", "invalid_values": "preserve"}),
+    "Dict[str,int]c": _r("dict", args=[P("str"), P("int")], options={"collect_errors": True}),
+    "Set[int]c": _r("set", args=[P("int")], options={"collect_errors": True, "max_errors": 3}),
+    "Tuple[int,...]c": _r("tuple", args=[P("int")], ellipsis=True, options={"collect_errors": True}),
+    "pint_c": _r("int", {"gt": 0, "multiple_of": 2}, options={"collect_errors": True}),
+    "dt_c": _r("datetime", {}, options={"collect_errors": True}),
     "int|None": {"union": [PINT, P("None")]}, "int|str": {"union": [P("int"), P("str")]},
     "pint^str3": {"xor": [PINT, _r("str", {"max_length": 3})]},
     "int&~neg": {"all": [P("int"), {"not": _r("int", {"lt": 0})}]}, "float&": {"all": [P("float"), _r("float", {"ge": 0})]},
@@ -1328,6 +1336,9 @@ H_SCHEMAS = {
     "S16": {"name": "S16", "fields": [_fld("a", H_TYPES["list_contains_dt"]), _fld("b", H_TYPES["Dict[list,int]"], required=False)]},
     "S17": {"name": "S17", "fields": [_fld("x", {"union": [{"schema": {"name": "KA", "fields": [_fld("kind", _r(None, {"const": "a"}))]}},
                                                           {"schema": {"name": "KB", "fields": [_fld("kind", _r(None, {"const": "b"}))]}}]})]},
+    "S19": {"name": "S19", "fields": [_fld("x", {"union": [{"schema": {"name": "LA", "fields": [_fld("kind", {"literal": ["a"]})]}},
+                                                          {"schema": {"name": "LB", "fields": [_fld("kind", {"literal": ["b"]})]}}]},
+                                          discriminator="kind")]},
     "S18": {"name": "S18", "fields": [_fld("a", H_TYPES["Set[list]"], required=False), _fld("n", {"schema": {"name": "S18n", "fields": [_fld("a", PINT)]}}, required=False)],
             "options": {"max_params": 2, "addition": True}},
 }
@@ -1477,7 +1488,7 @@ class C04(Check):
     impl = "harness.c04:impl"
     uses_extract = True
     case_timeout = 5.0
-    budget = {"quick": 2600, "thorough": 30000}
+    budget = {"quick": 4000, "thorough": 40000}
     search_budget = {"quick": 3000, "thorough": 20000}
     rule = ("scripted scenarios: random declarations (constrained types over list/set/frozenset/tuple/dict/component origins, "
             "& | ^ ~ types, 1-4 field data classes incl. aliases/defaults/on_error/addition/discriminator, functions with "
@@ -1686,6 +1697,11 @@ class C04(Check):
     def neighbours(self, case, rng):
         out = []
         if case["kind"] == "hostile":
+            if "type" in case["target"] and "rule" in case["target"]["type"]:
+                c = json.loads(json.dumps(case))
+                o = c["target"]["type"]["rule"].setdefault("options", {})
+                o["collect_errors"] = not o.get("collect_errors", False)
+                out.append(c)
             for vn in rng.sample(list(H_VALUES), 12):
                 c = dict(case, vn=vn)
                 if "value" in c:
